@@ -17,6 +17,7 @@ pub mod c09;
 pub mod c10;
 pub mod c10_handover;
 pub mod c10_cluster;
+pub mod c10_crash;
 pub mod c10_softstop;
 pub mod c11;
 pub mod c12;
